@@ -98,7 +98,9 @@ fn gen_pool_plan(g: &mut Gen, sequential_bias: bool) -> Value {
             ops.push(json!({"t_ms": t, "op": "request", "hold_ms": hold}));
         }
         if g.chance(25) {
-            let kt = safe(g, (period + 1) * p);
+            // half of the deaths land around the moment the sessions created so far cross the idle timeout
+            let kp = if g.chance(50) { period + timeout_mult + g.range(0, 1) } else { period + 1 };
+            let kt = safe(g, kp * p);
             ops.push(json!({"t_ms": kt, "op": "kill", "which": g.range(0, 3)}));
         }
     }
